@@ -123,7 +123,9 @@ fn subset_post_v2tail(post: &Post, plan: &Plan, s: &mut Serializer) -> Result<()
                     None => {
                         let new_idx = i;
                         visited_names.insert(ps_name, new_idx);
-                        i += 1;
+                        // there are at most 65536 - 258 distinct custom names (one per glyphNameIndex value):
+                        // after the last of them got index u16::MAX the counter is not used again
+                        i = i.wrapping_add(1);
 
                         let len = ps_name.len() as u8;
                         s.embed(len)
@@ -168,6 +170,33 @@ mod test {
             subset_flags: SubsetFlags::SUBSET_FLAGS_GLYPH_NAMES,
             ..Default::default()
         };
+        assert_eq!(subset_to_bytes(&bytes, &plan), bytes);
+    }
+
+    #[test]
+    fn subset_post_v2_every_custom_name_index_used() {
+        // 65278 glyphs, each with its own custom name: the name counter takes its last value u16::MAX
+        let n: usize = 65536 - 258;
+        let mut bytes = vec![0u8; 32];
+        bytes[1] = 2;
+        bytes.extend_from_slice(&(n as u16).to_be_bytes());
+        for g in 0..n {
+            bytes.extend_from_slice(&((258 + g) as u16).to_be_bytes());
+        }
+        for g in 0..n {
+            let name = format!("g{g}");
+            bytes.push(name.len() as u8);
+            bytes.extend_from_slice(name.as_bytes());
+        }
+        let mut plan = Plan {
+            subset_flags: SubsetFlags::SUBSET_FLAGS_GLYPH_NAMES,
+            num_output_glyphs: n,
+            ..Default::default()
+        };
+        for g in 0..n as u32 {
+            plan.glyphset.insert(GlyphId::new(g));
+            plan.glyph_map.insert(GlyphId::new(g), GlyphId::new(g));
+        }
         assert_eq!(subset_to_bytes(&bytes, &plan), bytes);
     }
 }
